@@ -131,6 +131,13 @@ class JsonPlugin:
             raise Unsupported(f"math.isnan of {v.kind}")
         return None
 
+    def builtin_value(self, ex, name):
+        if name == "math.inf":
+            return SV("const", float("inf"))
+        if name == "math.nan":
+            return SV("const", float("nan"))
+        return None
+
     def attr_hook(self, ex, st, v, attr):
         if v.kind == "b64":
             return [(st, SV("func", ("method", v, attr)))]
